@@ -28,6 +28,11 @@ PARTIAL = [
     "|‖u‖²‖v‖²‖w‖²-1| <= 1e-14 is checked, the exact identity proved and checked is E' = E - c²(2-τ)",
     "square roots of the normalisation (norm_data) are taken in float from the exact squared norm",
     "bit-reproducibility under a fixed global seed is sampled (two runs per case), NumPy's generator is trusted",
+    "_update_vector: np.linalg.solve is a parameter with the contract IsUpdate ((I+αΩ)(d·out) = b), whose exact residual is "
+    "checked on the first recorded calls (arrays up to 320 entries); _gcv / _find_optimal_alpha (minimize_scalar) are not modelled: "
+    "monotone decrease of the penalised objective is proved per block for FIXED smoothing parameters only",
+    "translator: comparison operators and factors of the iteration loop are re-parsed from fcp_tpa.py into Generated/FcpLoop.lean "
+    "(C17.source_controller); an unrecognised source shape keeps the last generated file and is noted in the evidence",
 ]
 TRUSTED_EXTRA = []
 
